@@ -288,9 +288,9 @@ func (c *ctx) create() {
 	case 1:
 		n = g.Range(0, 12)
 	case 2:
-		n = g.Range(0, 60)
+		n = g.BoundarySize(0, 70)
 	default:
-		n = g.Range(0, 200)
+		n = g.BoundarySize(0, 200)
 	}
 	xs, fam := c.genXs(n)
 	o := &obj{s: &stats.Sample{Xs: xs}}
